@@ -264,6 +264,9 @@ def run(chk, prog, tier):
   rule_options(chk, prog)
   from rules import c07
   c07.check_reversed_einsum(chk, prog, 'C09.4-options-cannot-change-values')
+  # sibling: the z-sharded path of the fast implementation pads and crops the level axis around its transforms; pad and crop must act on the
+  # same end (decided under C07.3) or every Grid method returns level-shifted fields that the reference implementation does not
+  c07.rule_vertical_padding(chk, prog, rule='C09.5-level-padding-transparent')
   try:
     rule_layout_siblings(chk, prog)
   except AnalysisError as e:
